@@ -22,9 +22,9 @@ REP = '{"*", "/", "+", "=", "AND", "OR"}'
 SUB = '{"*", "+", "=", "AND", "OR"}'
 
 
-def cfg(k, maxspecial, ops, sub, nest="{1}", lits="{}", inv=True):
+def cfg(k, maxspecial, ops, sub, nest="{1}", lits="{}", inv=True, callargs=False):
     return ("SPECIFICATION Spec\nCONSTANTS\n  K = %d\n  MaxSpecial = %d\n  OpsUsed = %s\n  SubOps = %s\n  Nest = %s\n  Lits = %s\n"
-            "  Long = %s\n%sCHECK_DEADLOCK FALSE\n" % (k, maxspecial, ops, sub, nest, lits, "FALSE" if inv else "TRUE",
+            "  CallArgs = %s\n  Long = %s\n%sCHECK_DEADLOCK FALSE\n" % (k, maxspecial, ops, sub, nest, lits, "TRUE" if callargs else "FALSE", "FALSE" if inv else "TRUE",
                                                         "INVARIANTS Agree Fold ReparseStable Local\n" if inv else ""))
 
 
@@ -50,6 +50,10 @@ def run(ctx):
         parts.append(("levels5", cfg(5, 0, '{"*", "+", "=", "AND", "OR"}', '{"*"}'), None, None))
         # long chains: every prefix of a few random chains of up to 140 operators (64 is a slab size, 3 the ring size)
         parts.append(("long", cfg(140, 0, ALL, '{"*"}', inv=False), "num=3", 141))
+        # calls whose argument is a parenthesised group, as operands
+        parts.append(("callargs", cfg(2, 1, REP, SUB, "{1, 2}", callargs=True), None, None))
+        # uniform chains of 255..4097 operands (a / now()), a parenthesised or call operand last
+        parts.append(("uniform", cfg(0, 0, ALL, '{"*"}', inv=False), None, None))
         parts.append(("sim", cfg(6, 0, ALL, '{"*"}'), "num=100", 7))
     else:
         parts.append(("plain4", cfg(4, 0, ALL, '{"*"}'), None, None))          # 137 560 chains, exhaustive
@@ -59,6 +63,8 @@ def run(ctx):
         parts.append(("lits2", cfg(2, 1, '{"*", "/", "-", "+", "="}', '{"*", "+"}', lits='{"-1", "-2", "2", "1", "0"}', nest="{1, 2}"), None, None))
         parts.append(("sim", cfg(8, 0, ALL, '{"*"}', lits='{"-1", "2"}'), "num=200", 9))
         parts.append(("simforms", cfg(5, 3, ALL, SUB, "{1, 2}"), "num=12", 6))
+        parts.append(("callargs", cfg(3, 1, REP, SUB, "{1, 2}", callargs=True), None, None))
+        parts.append(("uniform", cfg(0, 0, ALL, '{"*"}', inv=False), None, None))
         parts.append(("levels7", cfg(7, 0, '{"*", "+", "=", "AND", "OR"}', '{"*"}'), None, None))
         parts.append(("long", cfg(240, 0, ALL, '{"*"}', inv=False), "num=6", 241))      # the judge's JSON reader stops at nesting depth 255
     for name, text, sim, depth in parts:
